@@ -230,6 +230,7 @@ func runShippedBoot(c *eng.Ctx, s shipped, res ckks.Parameters, sample map[strin
 		}
 		return
 	}
+	usedLit := *s.boot
 	p, err, pv := build(*s.boot)
 	if pv != nil {
 		c.Violate("C19|"+s.Name+"|panic", fmt.Sprintf("bootstrapping.NewParametersFromLiteral panics on the shipped literal: %v", pv), nil)
@@ -245,6 +246,7 @@ func runShippedBoot(c *eng.Ctx, s shipped, res ckks.Parameters, sample map[strin
 		if l.LogN == nil {
 			l.LogN = utils.Pointy(res.LogN())
 			p, err, pv = build(l)
+			usedLit = l
 		}
 		if err != nil || pv != nil {
 			return 0
@@ -291,6 +293,7 @@ func runShippedBoot(c *eng.Ctx, s shipped, res ckks.Parameters, sample map[strin
 		})
 	bq := p.BootstrappingParameters.Q()
 	c.Check(len(bq) > res.QCount() && eqv(bq[:res.QCount()], res.Q()), "C19|"+s.Name+"|residual-moduli-not-a-prefix", nil)
+	checkBitConsumption(c, usedLit, p, res, nil)
 	return total
 }
 
